@@ -96,6 +96,19 @@ def run(spec, ctx):
                 for c in "OB":
                     ref = ("1100" if t == "11" else t + "8D") + r["reason"][2:]
                     one([pm.gen_src(rng, u, True, c, srctype=t, refcode=ref, wordcount=rng.choice([9, 9, 5, 8])), sentinel(c)], c)
+        # twins: the same type, reason code and reference code again, all words equal but ONE - what is shown for the second
+        # SRC (message arguments, word descriptions, flags) follows its own words, whatever was decoded just before
+        for r in reg:
+            for t in ("BD", "11", "BC"):
+                c = rng.choice("OB")
+                ref = ("1100" if t == "11" else t + "8D") + r["reason"][2:]
+                s1 = pm.gen_src(rng, u, True, c, srctype=t, refcode=ref, wordcount=9, ncallouts=0)
+                one([s1, sentinel(c)], c)
+                for k in rng.sample(range(8), 3):
+                    w = list(s1.m["words"])
+                    w[k] = (w[k] ^ (1 << rng.randrange(32))) if rng.random() < 0.5 else rng.randrange(1 << 32)
+                    ctx.count("src.twins")
+                    one([pm.gen_src(rng, u, True, c, srctype=t, refcode=ref, wordcount=9, ncallouts=0, words=w), sentinel(c)], c)
         # shaped callouts
         for _k in range(60):
             c = rng.choice("OBM")
